@@ -93,6 +93,7 @@ type c10Result struct {
 	During     bool
 	LockWait   bool
 	Before     bool
+	Stale      bool
 }
 
 // c10LockWait: goroutine A has a message open through Writer. B's Write has a
@@ -398,6 +399,8 @@ func runC10(t fataler, c c10Case) (string, c10Result) {
 		ctx, cancel := mkCtx(o)
 		during := o.Ctx == "cancel-during" || o.Ctx == "deadline-during"
 		payload := expand(ckText, uint64(i)*31+7, o.Len)
+		var staleWriter io.WriteCloser
+		var staleReader io.Reader
 		var opErr error
 		var done <-chan struct{}
 		start := time.Now()
@@ -413,7 +416,18 @@ func runC10(t fataler, c c10Case) (string, c10Result) {
 			} else {
 				sendMsg(o, payload, "all")
 			}
-			done = e.Call(func() { _, got, opErr = conn.Read(ctx) })
+			if !during && (i+o.Frags)%2 == 0 {
+				done = e.Call(func() {
+					var r io.Reader
+					_, r, opErr = conn.Reader(ctx)
+					if opErr == nil {
+						staleReader = r
+						got, opErr = io.ReadAll(r)
+					}
+				})
+			} else {
+				done = e.Call(func() { _, got, opErr = conn.Read(ctx) })
+			}
 			if !during {
 				if !within(done, 30*time.Second) {
 					return fmt.Sprintf("op %d read did not return", i), res
@@ -442,6 +456,7 @@ func runC10(t fataler, c c10Case) (string, c10Result) {
 						opErr = err
 						return
 					}
+					staleWriter = w
 					rest := payload
 					for _, ch := range chunks {
 						if _, err := w.Write(rest[:ch]); err != nil {
@@ -558,6 +573,29 @@ func runC10(t fataler, c c10Case) (string, c10Result) {
 			cancelledAfterInteresting = true
 		}
 		afterSuccess(o, cancel)
+		if o.Ctx == "cancel-after" && o.Delay == 0 && (staleWriter != nil || staleReader != nil) {
+			// the context is cancelled now; using the finished writer / reader once more
+			// (a deferred second Close, a Read after io.EOF) is at most an error of its
+			// own and must leave the connection alone - the following operations show it
+			var n int
+			var e1, e2 error
+			d := e.Call(func() {
+				if staleWriter != nil {
+					e1 = staleWriter.Close()
+					_, e2 = staleWriter.Write([]byte("x"))
+				} else {
+					n, e1 = staleReader.Read(make([]byte, 16))
+					e2 = e1
+				}
+			})
+			if !within(d, 10*time.Second) {
+				return fmt.Sprintf("op %d: a second Close / a Read after EOF on a finished message did not return", i), res
+			}
+			if e1 == nil || e2 == nil || n != 0 {
+				return fmt.Sprintf("op %d: using a finished writer/reader again returned n=%d, %v, %v", i, n, e1, e2), res
+			}
+			res.Stale = true
+		}
 		if o.Kind == "write" {
 			wireSeen++
 		}
@@ -599,7 +637,16 @@ func TestC10(t *testing.T) {
 				classes = append(classes, "during:"+o.Kind+"/"+o.Block)
 			}
 		}
-		rec.Case(res.NonTrivial, shape, classes...)
+		if res.LockWait {
+			classes = append(classes, "write-gave-up-waiting-for-an-open-message")
+		}
+		if res.Before {
+			classes = append(classes, "context-cancelled-before-the-call")
+		}
+		if res.Stale {
+			classes = append(classes, "finished-writer-or-reader-used-again-after-cancellation")
+		}
+		rec.Case(res.NonTrivial || res.LockWait || res.Before || res.Stale, shape, classes...)
 		if rec.WantSample() {
 			rec.Sample(fmt.Sprintf("%+v", c))
 		}
